@@ -3,6 +3,7 @@ package c12
 import (
 	"context"
 	"fmt"
+	"runtime"
 	"strings"
 	"sync"
 	"sync/atomic"
@@ -97,12 +98,16 @@ func TestC12ConcurrentDuplicates(t *testing.T) {
 				go func(op string, k int) {
 					defer wg.Done()
 					ready.Add(1)
-					for !gate.Load() {
+					for spins := 0; !gate.Load(); spins++ {
+						if spins > 2000 {
+							runtime.Gosched()
+						}
 					}
 					call(op, k)
 				}(op, k)
 			}
 			for int(ready.Load()) < g {
+				runtime.Gosched()
 			}
 			gate.Store(true)
 			if !exec(wg.Wait) {
